@@ -90,5 +90,10 @@ TEXTS = {
   "level": "exploration: every successfully started normal session must end with exactly one soft-stop per connected track output, then a zero-speed/functions-off drive message per (train, output), then exactly one track-off per output, all on the wire before bidib_stop returns; every thread created is joined exactly once and none of an earlier session again; no lock held, no leak; no-op calls produce no byte and no thread; session k behaves like session 1 (capacity 64, numbering from 1, same startup dialogue)",
   "note": "known finding listed in KNOWN_FINDINGS.txt: shutdown commands deferred behind unanswered requests of a track output are discarded (excluded by construction while listed: requests to track outputs are answered); leak detection relies on LeakSanitizer's recoverable check at the end of the case",
  },
+ "C11": {
+  "technique": "property-based testing (rapidcheck) with an interposed lock layer as oracle: per case the complete product of all public calls x argument classes, all uplink type codes on the receiver thread, rejected starts, or 2-4 threads of generated calls under a generated schedule; the objcopy-redirected pthread layer checks held-sets at every return and quiescent point, unlock discipline, wait-for cycles, virtual-time budget; the lock-order graph is checked for cycles per case and over the union of all cases of the run",
+  "level": "exploration: 44 getters x 4 argument classes, 15 high-level setter/admin calls x 4 classes, 72 low-level senders in/out of range, flush and the queue readers are executed completely in every enumeration case; 25 rejection classes for start+stop; concurrent schedules with preemption at every lock operation; evidence lists every lock-order edge observed",
+  "note": "the order graph treats an rwlock as one node regardless of mode; recursive read acquisition by one thread is reported as information (legal with glibc's reader-preferring default, which the lock model mirrors); absence of a cycle in the observed graph is not a proof for paths never executed",
+ },
 }
 NOT_YET = {}
